@@ -834,6 +834,14 @@ fn main() {
             let trace = args.iter().any(|a| a == "--trace");
             std::process::exit(replay(&args[2], quiet, trace));
         }
+        "scenario" => {
+            // developer aid: write the scenario of run <index> of <prop> as a replay file
+            let idx: u64 = args[3].parse().unwrap();
+            let vs: u64 = std::env::var("VERIF_SEED").ok().and_then(|s| s.parse().ok()).unwrap_or(1);
+            let sc = generate(run_seed(vs, &args[2], idx), &args[2], profile_for(&args[2], idx));
+            let rp = Replay { property: args[2].clone(), signature: args.get(4).cloned().unwrap_or_default(), detail: String::new(), verif_seed: vs, run_index: idx, minimised: false, kind: "system".into(), scenario: Some(sc), history: None };
+            println!("{}", serde_json::to_string_pretty(&rp).unwrap());
+        }
         "determinism" => {
             let runs: u64 = args[3].parse().unwrap();
             let first: u64 = args.get(4).and_then(|s| s.parse().ok()).unwrap_or(0);
